@@ -25,7 +25,7 @@ def run(ctx):
     info = ctx.translate(ll, ROOTS, 'c12.c', provided=['_Znam', '_ZdaPv'])
     gen = ctx.translate(ll, ROOTS, 'c12gen.c', opts=['--prefix', 'gen_'], provided=['_Znam', '_ZdaPv'])
     llc = ctx.build_ir('c12.cpp', 'cut')
-    cut = ctx.translate(llc, ['vf_gt_ref_u'], 'c12cut.c', models=['cxx.c'], stubs={'_ZN4FIX815InvalidMetadataIjEC2Ej': 'st_invmeta_ctor'})
+    cut = ctx.translate(llc, ['vf_gt_ref_u'], 'c12cut.c', models=['c12_exc.c'], stubs={'_ZN4FIX815InvalidMetadataIjEC2Ej': 'st_invmeta_ctor'})
     T = ['UPAIR_T=' + tname(info['c'], 'vf_gt_pair_u'), 'SPAIR_T=' + tname(info['c'], 'vf_gt_pair_s'), 'GSET_T=' + tname(info['c'], 'vf_gs_setup'), 'PSET_T=' + tname(info['c'], 'vf_ps_setup')]
     TC = ['UPAIR_T=' + tname(cut['c'], 'vf_gt_ref_u'), 'SPAIR_T=' + tname(cut['c'], 'vf_gt_ref_u'), 'VF_TI_INVMETA=g__ZTIN4FIX815InvalidMetadataIjEE']
     # translator validation: gcc build of the generated C next to the g++ build of the same wrappers
@@ -42,7 +42,7 @@ def run(ctx):
     hs.append(Harness('C12_table_string', G, defines=defs + T + ['KIND=1', 'NT=%d' % nt], unwind=nt + 2, timeout=600, functions=GTF, stubs=['strcmp := ISO C (models/base.c)'],
                       bounds='any strcmp-ascending table of n <= %d strings of <= 2 arbitrary bytes, any probe string of <= 2 bytes' % nt, desc='message-table lookups == linear membership scan'))
     hs.append(Harness('C12_table_find_ref', G, defines=defs + TC + ['KIND=2', 'NT=%d' % nt], unwind=nt + 2, timeout=600, functions=GTF + ['FIX8::GeneratedTable<unsigned,V>::find_ref'],
-                      stubs=['InvalidMetadata<unsigned>::InvalidMetadata(key) := records the key (message formatting is not the subject)', 'exception runtime: models/cxx.c'],
+                      stubs=['InvalidMetadata<unsigned>::InvalidMetadata(key) := records the key (message formatting is not the subject)', 'exception runtime: models/c12_exc.c (pending flag + thrown typeinfo)'],
                       bounds='as C12_table_unsigned', desc='find_ref returns the entry or throws InvalidMetadata'))
     S = VERIF + '/harness/C12_set.c'
     ns = 4 if not thorough else 6
